@@ -9,10 +9,11 @@ type tagBlockNode struct {
 	name string
 }
 
-// maxSuperDepth bounds how many block.Super calls may be executing at once. They add up
-// over nested blocks (every level of an inheritance chain for every block around), so the
-// bound is wider than the one on nested templates; it is there for definitions that
-// render each other through block.Super in a cycle.
+// maxSuperDepth bounds how many block.Super calls (and macro calls: they are counted
+// together, see executionNesting) may be executing at once. They add up over nested
+// blocks (every level of an inheritance chain for every block around), so the bound is
+// wider than the one on nested templates; it is there for definitions that render each
+// other through block.Super in a cycle.
 const maxSuperDepth = 1000
 
 func (node *tagBlockNode) getBlockWrappers(tpl *Template) []*NodeWrapper {
@@ -34,10 +35,6 @@ func (node *tagBlockNode) Execute(ctx *ExecutionContext, writer TemplateWriter) 
 	tpl := ctx.template
 	if tpl == nil {
 		panic("internal error: tpl == nil")
-	}
-
-	if ctx.superDepth > maxSuperDepth {
-		return ctx.Error(fmt.Sprintf("maximum nesting of block.Super reached (max is %d): block definitions rendering each other through block.Super in a cycle?", maxSuperDepth), nil)
 	}
 
 	// Determine the block to execute
@@ -86,10 +83,18 @@ func (t tagBlockInformation) Super(ctx *ExecutionContext) (*Value, error) {
 	}
 
 	// Definitions can refer to each other in a cycle (a overrides b's outer block and
-	// uses Super, b …): every step into a less-derived definition counts as a level of
-	// nesting of its own kind, which the block tag bounds (maxSuperDepth)
+	// uses Super, b …): every step into a less-derived definition counts as a nested
+	// call of the rendering, like a macro call does
+	nesting := ctx.nested()
+	nesting.calls++
+	defer func() {
+		nesting.calls--
+	}()
+	if nesting.calls > maxSuperDepth {
+		return AsSafeValue(""), ctx.Error(fmt.Sprintf("maximum nesting of block.Super reached (max is %d): block definitions rendering each other through block.Super in a cycle?", maxSuperDepth), nil)
+	}
+
 	superCtx := NewChildExecutionContext(ctx)
-	superCtx.superDepth = ctx.superDepth + 1
 	superCtx.Private["block"] = tagBlockInformation{
 		wrappers: t.wrappers[0 : lenWrappers-1],
 	}
